@@ -1,11 +1,11 @@
-/* F19a (C19): opus_pcm_soft_clip flips the sign of tiny samples.  When a frame clips before its first
+/* F11 (C19): opus_pcm_soft_clip flips the sign of tiny samples.  When a frame clips before its first
    zero crossing, the clipper adds a linear ramp from the first sample to the peak ("offset -= delta" repeated
    peak_pos times, src/opus.c).  The repeated subtraction leaves a rounding residue that can have the opposite
    sign; it is added to the samples just before the peak, so a positive sample smaller than the residue comes
    out negative (the property says the clipper never flips a sample's sign).  Cleared memory, finite input.
-   gcc -I/repo/include F19a_c19_softclip_signflip.c <build>/libopus.a -lm
+   gcc -I/repo/include F11_c19_softclip_signflip.c <build>/libopus.a -lm
    unchanged tree:   x[14]=1e-30 -> y[14]=-6.51926e-09   flips=1 ; long frames: flips>0, max |y| of a flipped sample ~6e-5
-   with the proposed fix (F19a_c19_softclip_signflip.proposed_fix.diff): flips=0 flips=0 */
+   with the proposed fix (F11_c19_softclip_signflip.proposed_fix.diff): flips=0 flips=0 */
 #include <stdio.h>
 #include <string.h>
 #include <math.h>
